@@ -144,7 +144,8 @@ class DisplayTitle(nodes.Node):
         name = []
         evaluate.flatten(self[0], expander, variables, name)
         name = "".join(name).strip()
-        expander.magic_displaytitle = name
+        # (a title is plain text: regions protected in it are put back, not left as markers)
+        expander.magic_displaytitle = expander.uniquifier.replace_uniq(name)
 
 
 def reverse_format_num(val):
